@@ -100,6 +100,11 @@ def _run_case(args):
         res['paths'] = npaths
         res['covers'] = covers
         res['notes'] = notes
+        # parts of the execution were over-abstracted (e.g. a loop over an abstract map run for one representative key): failed obligations
+        # found this way are reported, but the case does not count as verified
+        inc = sorted(set(n[len('INCOMPLETE: '):] for n in notes if isinstance(n, str) and n.startswith('INCOMPLETE: ')))
+        if inc:
+            res['undecided'] = 'abstracted beyond the contract: ' + '; '.join(inc)
     except Undecided as e:
         res['undecided'] = str(e)
     except CanaryNotApplicable as e:
